@@ -54,6 +54,8 @@ class DiskSeam:
 
     def __call__(self, file, mode="r", *a, **kw):
         path = str(file)
+        if not isinstance(file, int) and not os.path.isabs(path):
+            path = os.path.abspath(path)  # a relative name means whatever the working directory is at this moment
         if any(c in mode for c in "wax+") and path.startswith(self.out_dir):
             self.writes += 1
             if self.enospc_at is not None and self.writes == self.enospc_at and not self.enospc_fired:
